@@ -1,6 +1,7 @@
 import KoordVerif.Common.Proto
 import KoordVerif.Model.C13
 import KoordVerif.Model.C13Handle
+import KoordVerif.Model.C13Status
 /-
 Driver for C13.  All tokens after the op kind are integers.
 
@@ -21,6 +22,13 @@ Driver for C13.  All tokens after the op kind are integers.
                                              op: 0 CREATE 1 UPDATE 2 DELETE 3 CONNECT; sub: 0 = no sub-resource
   hvalidate <op> <sub> <isPods> <hasObj> <hasOld> <oldDeleting> <newDeleting> <finalizers> <oldFinalizers> <statusOnly> <gateSkipPriority>
                                           -> `hverdict <0|1>` (PodValidatingHandler.Handle admits; slot 0 = object, 1 = old object)
+  cstatus <slot> <cond> <n> (<name> <hasResources> RL(resources.requests) RL(allocatedResources))* <hasPodResources> RL RL
+                                          the in-place-resize status of slot 0 / 1 (after its `pod` line; a `pod` line
+                                          resets it): cond = pending + 4*inProgress, pending 0 none 1 Deferred 2 Infeasible
+                                          3 other; container statuses then init-container statuses; pod-level
+                                          status.resources.requests / status.allocatedResources.  No observation.
+  usestatus <0|1>                         (diagnostic, not emitted by any harness) judge the following requests as if
+                                          util.GetPodRequest passed UseStatusResources = <b> (default: what it passes, false)
   POD  = LSTR(qos label) LSTR(priority-class label) LSTR(c13/src label) <hasPrio> <prio> <hasSub> <sub> <statusQoS>
          <ANNOT> <nInit> <nCtr> <hasOv> <hasPodRes> CTR* [RL(overhead)] [RL(pod requests) RL(pod limits)]
   LSTR = -1 (absent) | <n> <byte>*        key: 0 qos 1 priority-class 2 c13/src
@@ -269,10 +277,39 @@ def selOfCode (c : Int) : Option SelShape :=
   if c = 0 then some .absent else if c = 1 then some .empty else if c = 2 then some .matches
   else if c = 3 then some .differs else if c = 4 then some .errs else none
 
+def pCtrStatus : Parser CtrStatus := fun ts =>
+  match ts with
+  | n :: hr :: xs =>
+    if n < 0 then none else
+    match pRL xs with
+    | some (rq, r1) => match pRL r1 with
+      | some (al, r2) => some ({ name := n.toNat, actuated := if hr ≠ 0 then some rq else none, allocated := al }, r2)
+      | none => none
+    | none => none
+  | _ => none
+
+def pStatus : Parser ResizeStatus := fun ts =>
+  match ts with
+  | cond :: t1 =>
+    if cond < 0 then none else
+    match pList pCtrStatus t1 with
+    | some (cs, hp :: t2) => match pRL t2 with
+      | some (rq, t3) => match pRL t3 with
+        | some (al, t4) => some ({ cond := cond.toNat, ctrs := cs, podLevel := if hp ≠ 0 then some (rq, al) else none }, t4)
+        | none => none
+      | none => none
+    | _ => none
+  | [] => none
+
 structure St where
   cur : Option Pod := none
   old : Option Pod := none
   profiles : List Profile := []
+  /-- the resize status of slot 0 (that of slot 1 is parsed and dropped: nothing reads the old pod's requests) -/
+  stNew : ResizeStatus := {}
+  /-- PodResourcesOptions.UseStatusResources as util.GetPodRequest passes it; only the op `usestatus` (never emitted by a
+      harness; for checking the model of the option against a tree that sets it) changes it -/
+  useStatus : Bool := getPodRequestUsesStatus
 
 def stepLine (st : St) (line : String) : St × List String :=
   match toks line with
@@ -281,8 +318,21 @@ def stepLine (st : St) (line : String) : St × List String :=
     | some (slot :: ts) =>
       match pPod ts with
       | some (p, []) =>
-        if slot = 0 then ({ st with cur := some p }, [])
+        if slot = 0 then ({ st with cur := some p, stNew := {} }, [])
         else if slot = 1 then ({ st with old := some p }, []) else (st, ["bad-op"])
+      | _ => (st, ["bad-op"])
+    | _ => (st, ["bad-op"])
+  | "usestatus" :: rest =>
+    match ints? rest with
+    | some [b] => ({ st with useStatus := b ≠ 0 }, [])
+    | _ => (st, ["bad-op"])
+  | "cstatus" :: rest =>
+    match ints? rest with
+    | some (slot :: ts) =>
+      match pStatus ts with
+      | some (s, []) =>
+        if slot = 0 ∧ st.cur.isSome then ({ st with stNew := s }, [])
+        else if slot = 1 ∧ st.old.isSome then (st, []) else (st, ["bad-op"])
       | _ => (st, ["bad-op"])
     | _ => (st, ["bad-op"])
   | "profile" :: rest =>
@@ -298,7 +348,7 @@ def stepLine (st : St) (line : String) : St × List String :=
       if op < 0 then (st, ["bad-op"]) else
       let old := st.old.getD new
       if op = 1 ∧ st.old.isNone then (st, ["bad-op"]) else
-      (st, [s!"verdict {b2i (validateAllowed stdRanges (gate ≠ 0) op.toNat old new)}"])
+      (st, [s!"verdict {b2i (validateAllowedSt stdRanges st.useStatus (gate ≠ 0) op.toNat old new st.stNew)}"])
     | _, _ => (st, ["bad-op"])
   | "probstr" :: rest =>
     match ints? rest with
@@ -340,7 +390,7 @@ def stepLine (st : St) (line : String) : St × List String :=
       | some o =>
         let e : Envelope := { op := o, subresource := sub ≠ 0, isPods := isPods ≠ 0, hasObject := hasObj ≠ 0, hasOld := hasOld ≠ 0 }
         let sh : ObjShape := { oldDeleting := od ≠ 0, newDeleting := nd ≠ 0, finalizers := fin ≠ 0, oldFinalizers := ofin ≠ 0, statusOnly := so ≠ 0 }
-        (st, [s!"hverdict {b2i (handleValidating stdRanges e sh (gate ≠ 0) (st.old.getD new) new)}"])
+        (st, [s!"hverdict {b2i (handleValidatingSt stdRanges e sh st.useStatus (gate ≠ 0) (st.old.getD new) new st.stNew)}"])
     | _, _ => (st, ["bad-op"])
   | "mutate" :: rest =>
     match ints? rest, st.cur with
